@@ -79,11 +79,11 @@ def _native_playback(sc, rec, repo=None):
     row = rec["config"]
     cmd = ["cargo", "kani", "playback", "--manifest-path", os.path.join(repo, "Cargo.toml"), "-p", CRATE,
            "--no-default-features", "--features", ROWS[row], "-Z", "concrete-playback", "-Z", "stubbing",
-           "-Z", "function-contracts",
-           "--target-dir", os.path.join(os.path.dirname(repo), "target-playback"), "--", name, "--exact"]
+           "-Z", "function-contracts", "--lib",
+           "--", name]
     # test filter is a substring on the full path; the generated name is unique
-    cmd = cmd[:-1]
-    rc, out, secs = sh(cmd, cwd=os.path.dirname(repo), timeout=1800)
+    rc, out, secs = sh(cmd, cwd=os.path.dirname(repo), timeout=1800,
+                       env={"CARGO_TARGET_DIR": os.path.join(os.path.dirname(repo), "target-playback")})
     ran = re.search(r"test result: (\w+)\. (\d+) passed; (\d+) failed", out)
     if not ran:
         raise RuntimeError("native playback did not run: " + out[-1500:])
